@@ -14,7 +14,7 @@ PROP = {
     ],
     "assumptions": [
         "callers stay within the asserted / documented preconditions: an event is never deleted inside its own callback (deferred delete through runNext instead), no wait call is made while an enabled event sits on a closed descriptor (a descriptor may be closed while its events are enabled, but they are disabled or destroyed inside the same action, before the loop waits again), an event of a closed descriptor is never enabled",
-        "kExceptEvent is not subscribed; a descriptor in an error condition (POLLERR: write end of a pipe without reader) is served under the safety oracle, but from that pass on the two back-ends are not compared (EPOLLERR vs. select's 'readable and writable')",
+        "kExceptEvent occurs in subscriptions only (masks R|E, W|E, R|W|E, E); no exceptional condition is produced on purpose; a descriptor in an error condition (POLLERR: write end of a pipe without reader) is served under the safety oracle, but from that pass on the two back-ends are not compared (EPOLLERR vs. select's 'readable and writable')",
         "readiness is the kernel's view at the wait call of the pass (poll() snapshot taken right before it); bytes consumed by an earlier callback of the same pass do not revoke it, as FdEvent.OneWriteMultiRead expects",
         "a pass marked as interrupted wait blocks for real (0.4-1.2 ms) until a real-time signal with a no-op handler interrupts epoll_wait/select; it is armed only when the model predicts that nothing is ready",
         "the model takes mask and mode (persistent / one-shot) of the last successful initialize(); the defect of proposed-fixes/04 (the one-shot flag was never cleared by a later initialize(kPersist)) is fixed in /repo by 969605f, so that shape is generated (kAvoid_oneshot_to_persist_reinit = false)",
@@ -26,6 +26,6 @@ PROP = {
 META = {
     "design_ref": "DESIGN.md section 4, C03",
     "technique": "model-based stateful PBT (rapidcheck) + coverage-guided fuzzing (libFuzzer) of generated descriptor sets, readiness scripts and in-callback mutation scripts against a tombstone/enable-state model, differential epoll vs. select, under ASan/UBSan with object-pool poisoning",
-    "level_text": "Generated scenarios (2-5 pipes/socket pairs with permuted descriptor numbers, 1-8 initial events with read/write masks, persistent or one-shot, several per descriptor; up to 12 loop passes each with a readiness script: write / drain / fill until unwritable / drain the peer / close the peer; in a fifth of the cases one pass whose blocking wait is interrupted by a handled signal (EINTR); per event and firing number a script of disable self, enable / disable / destroy / replace another event chosen among the events of the same descriptor, of another descriptor ready in this pass or of an idle descriptor, create an event on a descriptor whose record was just freed, disable-all-then-close, read, deferred self-delete, move to another descriptor, recycle a descriptor (close it while its events are enabled or after, disable or destroy them, re-open a pair under the same descriptor number, watch it with an old object or a new event), re-initialise in place on the same descriptor with the same or a new mask (swap, narrow, widen, none) and the other / the same mode, initialize twice at creation) run on a fresh epoll loop and a fresh select loop, one real loop pass at a time. At every callback: the event object exists and the model says enabled (nobody - including an earlier callback of the same pass - disabled or destroyed it), isEnabled() is true / already false for one-shot, the reported mask contains a subscribed condition for which poll() saw the descriptor ready when the pass began; after every pass isEnabled() of every event equals the model, and every event that was enabled on a ready descriptor when the pass began and was not touched during the pass has had its callback; no exception leaves runLoop; ASan with poisoned pool blocks is clean. For the order-independent prefix of a scenario the multiset of (event, reported&subscribed mask) per pass is identical on both back-ends. Exploration only: no counter-example among N generated scenarios.",
-    "level_note": "Trusted: the enable-state model in harness/C03/fdevents.cpp, poll() as the readiness reference, the classification of order-independent passes (conservative), ASan/UBSan and hook H3. Not covered: kExceptEvent, a wait call while an enabled event sits on a closed descriptor, deleting an event in its own callback, more than 5 descriptors / 16 events / 12 passes, readiness changes made by other threads or peers during a pass, liveness when both back-ends lose the same callback.",
+    "level_text": "Generated scenarios (2-5 pipes/socket pairs with permuted descriptor numbers, in a sixth of the cases one of them on descriptor number 0, 1-8 initial events with read/write masks optionally subscribing kExceptEvent as well, persistent or one-shot, several per descriptor; up to 12 loop passes each with a readiness script: write / drain / fill until unwritable / drain the peer / close the peer; in a fifth of the cases one pass whose blocking wait is interrupted by a handled signal (EINTR); per event and firing number a script of disable self, enable / disable / destroy / replace another event chosen among the events of the same descriptor, of another descriptor ready in this pass or of an idle descriptor, create an event on a descriptor whose record was just freed, disable-all-then-close, read, deferred self-delete, move to another descriptor, recycle a descriptor (close it while its events are enabled or after, disable or destroy them, re-open a pair under the same descriptor number, watch it with an old object or a new event), re-initialise in place on the same descriptor with the same or a new mask (swap, narrow, widen, none) and the other / the same mode, initialize twice at creation) run on a fresh epoll loop and a fresh select loop, one real loop pass at a time. At every callback: the event object exists and the model says enabled (nobody - including an earlier callback of the same pass - disabled or destroyed it), isEnabled() is true / already false for one-shot, the reported mask contains a subscribed condition for which poll() saw the descriptor ready when the pass began; after every pass isEnabled() of every event equals the model, and every event that was enabled on a ready descriptor when the pass began and was not touched during the pass has had its callback; no exception leaves runLoop; ASan with poisoned pool blocks is clean. For the order-independent prefix of a scenario the multiset of (event, reported&subscribed mask) per pass is identical on both back-ends. Exploration only: no counter-example among N generated scenarios.",
+    "level_note": "Trusted: the enable-state model in harness/C03/fdevents.cpp, poll() as the readiness reference, the classification of order-independent passes (conservative), ASan/UBSan and hook H3. Not covered: delivery of exceptional conditions (kExceptEvent is only subscribed), a wait call while an enabled event sits on a closed descriptor, deleting an event in its own callback, more than 5 descriptors / 16 events / 12 passes, readiness changes made by other threads or peers during a pass, liveness when both back-ends lose the same callback.",
 }
